@@ -194,6 +194,7 @@ func updateRefsFromBinding(edits editSet, binding *syntax.BindStm,
 		Pipeline: pipe,
 		Call:     call,
 		Binding:  binding,
+		Id:       binding.Id,
 		Mods:     isMods,
 		Exp:      exp,
 	})
